@@ -503,8 +503,16 @@ func TestC12Macros(t *testing.T) {
 
 // TestC12Arity: every signature of 0..4 parameters x every subset of defaults (<= 3 params)
 // x every argument count 0..6.
+// c12DefaultExprs: parameter defaults that are expressions (a default is evaluated like the same
+// expression passed as the argument)
+func c12DefaultExprs() []*E {
+	return []*E{Bin("/", Int(7), Int(2)), Bin("/", Int(1), Int(4)), Bin("/", Int(-7), Int(2)), Bin("+", Bin("/", Int(100), Int(8)), Int(1)), Bin("^", Int(2), Int(3)), Bin("%", Int(7), Int(3)), Bin("%", Int(-7), Int(3)),
+		Bin("~", Str("a"), Str("b")), Bin("+", Int(1), Bin("*", Int(2), Int(3))), Bin("-", Bin("-", Int(10), Int(3)), Int(2)), Filt(List(Int(1), Int(2)), "length"), Cond(Bin(">", Int(3), Int(2)), Str("y"), Str("n")),
+		Bin("*", Int(3), Bin("/", Int(9), Int(2))), Bin("/", Bin("*", Int(6), Int(3)), Int(4)), Var("dv"), Bin("+", Var("dv"), Int(1)), Str("it's"), Null(), List(), Int(0), Str("")}
+}
+
 func TestC12Arity(t *testing.T) {
-	r := NewRec(t, "C12", "exhaustive arity grid: 0..4 parameters x every subset with defaults x 0..6 arguments, each through all five call forms, with a sibling macro calling it with the same arguments; non-trivial = argument count != parameter count or a default is used")
+	r := NewRec(t, "C12", "exhaustive: 21 default expressions (non-exact divisions, modulo, powers, concatenation, conditionals, filters, variables of the caller, empty values) with the argument omitted and with the same expression passed; arity grid: 0..4 parameters x every subset with defaults x 0..6 arguments, each through all five call forms, with a sibling macro calling it with the same arguments; non-trivial = argument count != parameter count or a default is used")
 	defer r.Flush()
 	r.SetExhaustive()
 	ctx := Ctx{}
@@ -512,6 +520,18 @@ func TestC12Arity(t *testing.T) {
 	ctx.Set("q", Str("Q"))
 	ctx.Set("r", Int(0))
 	names := []string{"p", "q", "x", "y"}
+	// default expressions: omitted argument vs the same expression passed explicitly
+	ctx.Set("dv", Int(14))
+	for di, def := range c12DefaultExprs() {
+		m := &S{K: "macro", Name: "m0", Params: []Param{{Name: "x", Def: def}, {Name: "y", Def: Int(1)}}, Body: []*S{Text("<"), Print(Var("x")), Text("|"), Print(Var("y")), Text(">")}}
+		cp := *def
+		body := []*S{Print(&E{K: "mcall", S: "m0", M: "local"}), Text("="), Print(&E{K: "mcall", S: "m0", M: "local", A: []*E{&cp}}), Text("="), Print(&E{K: "mcall", S: "m0", M: "local", A: []*E{&cp, Int(1)}})}
+		c := C12Case{Ctx: ctx, Macros: []*S{m}, Body: append(body, c12Probes()...)}
+		r.Case(fmt.Sprint("default-expr", di), true, PrintS(m, SPrint{}))
+		if err := checkC12(c); err != nil {
+			r.FailEnum(t, "C12.macro", c, err)
+		}
+	}
 	for np := 0; np <= 4; np++ {
 		for mask := 0; mask < 1<<uint(np); mask++ {
 			for na := 0; na <= 6; na++ {
